@@ -152,6 +152,9 @@ func runC14(r *Run) {
 	r.Bound("documents", len(docs))
 	r.Bound("paths", len(paths))
 	refSweep(r, "subscripts-vs-slice-arithmetic", paths, docs, cfgsNumSilent())
+	lp := bothModes(lastAfterFailingSubscript())
+	r.Bound("last_after_failing_subscript_paths", len(lp))
+	refSweep(r, "last-after-failing-nested-subscript", lp, makeDocs([]any{mustDoc(`[[1,2],5,6,7]`, "float64"), mustDoc(`[[1,2,3],5]`, "float64"), mustDoc(`[[0],5,6]`, "float64"), mustDoc(`[[],1]`, "float64"), mustDoc(`[5,6]`, "float64")}), cfgsNumSilent())
 	np, nd := c14NestedBounds()
 	r.Bound("nested_bound_paths", len(np))
 	r.Bound("nested_bound_documents", len(nd))
